@@ -244,6 +244,44 @@ pub fn generate(tier: Tier, rng: &mut Rng) -> Vec<Case> {
     // chains whose terms all compare one operand with something (the shape an "x == a || x == b
     // → x in [a, b]" rewrite looks for): later terms stay unevaluated once the chain is decided;
     // the model, which has no such rewrite, decides
+    // flat, unparenthesised chains of three and four operands (the parser's chain handling only
+    // sees operands that are written without parentheses); same semantics as the left-nested tree
+    {
+        let mut counter2 = 1000;
+        let ls = leaves(&mut counter2, false);
+        let flat = |ts: &[&L], is_or: bool| -> (String, L) {
+            let src = ts.iter().map(|t| t.render()).collect::<Vec<_>>().join(if is_or { " || " } else { " && " });
+            let mut tree = ts[0].clone();
+            for t in &ts[1..] {
+                tree = if is_or { L::Or(Box::new(tree), Box::new((*t).clone())) } else { L::And(Box::new(tree), Box::new((*t).clone())) };
+            }
+            (src, tree)
+        };
+        for is_or in [false, true] {
+            for a in &ls {
+                for b in &ls {
+                    for c in &ls {
+                        let mut combos: Vec<Vec<&L>> = vec![vec![a, b, c]];
+                        // a fourth operand repeating the first (a de-duplicating rewrite must keep the first)
+                        combos.push(vec![a, b, c, a]);
+                        for ts in combos {
+                            let (src, tree) = flat(&ts, is_or);
+                            for wrapper in [0usize, 3] {
+                                let wsrc = wrap(&src, wrapper);
+                                if let Some(mut case) = eval_case_from_src(&spec, &wsrc) {
+                                    let (want, skipped) = expected(&tree, wrapper);
+                                    case.tags = vec!["flat-chain", if skipped > 0 { "skips" } else { "no-skip" }];
+                                    case.src = Some(wsrc);
+                                    EXPECT.with(|e| e.borrow_mut().insert(case.key(), want));
+                                    out.push(case);
+                                }
+                            }
+                        }
+                    }
+                }
+            }
+        }
+    }
     // (source, outcome, log entry): x is 1
     let terms: [(&str, Result<bool, &str>, &str); 12] = [
         ("x == 1", Ok(true), ""),
